@@ -13,8 +13,9 @@
  *   updater: "add nX" (cds_list_add_rcu), "addt nX" (cds_list_add_tail_rcu), "del nX" (cds_list_del_rcu),
  *            "repl nOLD nNEW" (cds_list_replace_rcu), "hadd nX" (cds_hlist_add_head_rcu), "hdel nX"
  *            (cds_hlist_del_rcu), "free nX" (full barrier, abstract grace period, node quarantined)
- *   reader:  "trav" (cds_list_for_each_entry_rcu inside a read-side critical section),
- *            "htrav" (cds_hlist_for_each_entry_rcu)
+ *   reader:  inside a read-side critical section: "trav" (cds_list_for_each_entry_rcu), "travp" (cds_list_for_each_rcu),
+ *            "htrav" (cds_hlist_for_each_entry_rcu), "htrav2" (cds_hlist_for_each_entry_rcu_2), "htravp" (cds_hlist_for_each_rcu);
+ *            the loop body reads the payload of the node
  * Names of locations/values = names of the specification: head "L" (L.next, L.prev), nodes n<i> (n<i>.next,
  * n<i>.prev, n<i>.key), payload values Kn<i>, NULL.  The hlist head is also called "L" (only L.next exists).
  */
@@ -40,6 +41,7 @@ struct hitem { void *key; struct cds_hlist_node node; };
 static struct litem li[MAXN]; static struct hitem hi[MAXN];
 static struct cds_list_head lhead; static struct cds_hlist_head hhead;
 static int is_hlist;
+static int resident[MAXN];	/* in the initial list and never removed by the scenario: every traversal must visit it exactly once */
 #define KEYV(i) ((void *) (0x1000UL + 16 * (unsigned long) (i)))
 
 static void update(struct op *o)
@@ -91,18 +93,19 @@ static void update(struct op *o)
 	vrt_log("\"op\":\"ret\",\"r\":\"-\"");
 }
 
-static void visit(char *res, size_t cap, size_t *len, int *cnt, const char *name, void *key, int idx)
+static void visit(char *res, size_t cap, size_t *len, int *cnt, int *times, const char *name, void *key, int idx)
 {
 	if (++*cnt > MAXVISIT) vrt_fail("ORACLE traversal does not terminate (more than %d nodes visited)", MAXVISIT);
 	if (idx < 0 || idx >= MAXN) vrt_fail("ORACLE traversal reached a pointer that is not a list node");
 	if (!key) vrt_fail("ORACLE traversal saw node n%d with uninitialised payload", idx);
 	if (key != KEYV(idx)) vrt_fail("ORACLE traversal saw node n%d with a wrong payload", idx);
+	if (++times[idx] > 1) vrt_fail("ORACLE traversal visited node n%d twice", idx);
 	*len += snprintf(res + *len, cap - *len, "%s%s", *len ? "," : "", name);
 }
 
 static void traverse(struct op *o)
 {
-	char res[160]; size_t len = 0; int cnt = 0; res[0] = 0;
+	char res[160]; size_t len = 0; int cnt = 0, times[MAXN] = { 0 }; res[0] = 0;
 	vrt_log("\"op\":\"call\",\"api\":\"%s\",\"n\":\"-\",\"m\":\"-\"", o->kind);
 	vrt_op_begin(o->kind, VP_WAITFREE);
 	vrt_yield();				/* rcu_read_lock() is a step of its own in the specification */
@@ -110,15 +113,33 @@ static void traverse(struct op *o)
 	if (!strcmp(o->kind, "trav")) {
 		struct litem *pos;
 		cds_list_for_each_entry_rcu(pos, &lhead, node)
-			visit(res, sizeof res, &len, &cnt, vrt_sym(&pos->node), pos->key, (int) (pos - li));
+			visit(res, sizeof res, &len, &cnt, times, vrt_sym(&pos->node), pos->key, (int) (pos - li));
+	} else if (!strcmp(o->kind, "travp")) {
+		struct cds_list_head *p;
+		cds_list_for_each_rcu(p, &lhead) {
+			struct litem *pos = cds_list_entry(p, struct litem, node);
+			visit(res, sizeof res, &len, &cnt, times, vrt_sym(p), pos->key, (int) (pos - li));
+		}
 	} else if (!strcmp(o->kind, "htrav")) {
 		struct hitem *pos; struct cds_hlist_node *p;
 		cds_hlist_for_each_entry_rcu(pos, p, &hhead, node)
-			visit(res, sizeof res, &len, &cnt, vrt_sym(&pos->node), pos->key, (int) (pos - hi));
+			visit(res, sizeof res, &len, &cnt, times, vrt_sym(&pos->node), pos->key, (int) (pos - hi));
+	} else if (!strcmp(o->kind, "htrav2")) {
+		struct hitem *pos;
+		cds_hlist_for_each_entry_rcu_2(pos, &hhead, node)
+			visit(res, sizeof res, &len, &cnt, times, vrt_sym(&pos->node), pos->key, (int) (pos - hi));
+	} else if (!strcmp(o->kind, "htravp")) {
+		struct cds_hlist_node *p;
+		cds_hlist_for_each_rcu(p, &hhead) {
+			struct hitem *pos = cds_hlist_entry(p, struct hitem, node);
+			visit(res, sizeof res, &len, &cnt, times, vrt_sym(p), pos->key, (int) (pos - hi));
+		}
 	} else
 		vrt_fail("DRIVER unknown reader op %s", o->kind);
 	vrt_yield();				/* rcu_read_unlock() likewise */
 	abs_read_unlock();
+	for (int k = 0; k < MAXN; k++)
+		if (resident[k] && times[k] != 1) vrt_fail("ORACLE traversal missed node n%d, which is in the list during the whole run", k);
 	vrt_op_end();
 	vrt_log("\"op\":\"ret\",\"r\":\"%s\"", res);
 }
@@ -128,7 +149,7 @@ static void *runner(void *arg)
 	struct prog *p = arg;
 	for (int k = 0; k < p->nops; k++) {
 		struct op *o = &p->ops[k];
-		if (!strcmp(o->kind, "trav") || !strcmp(o->kind, "htrav")) traverse(o); else update(o);
+		if (strstr(o->kind, "trav")) traverse(o); else update(o);
 	}
 	return NULL;
 }
@@ -155,6 +176,9 @@ int main(int argc, char **argv)
 		else if (sscanf(line, "%7s", a) == 1) { strcpy(op->kind, a); cur->nops++; }
 	}
 	fclose(f);
+	for (int k = 0; k < ninit; k++) resident[init[k]] = 1;
+	for (int t = 0; t < np; t++) for (int k = 0; k < P[t].nops; k++)
+		if (!strcmp(P[t].ops[k].kind, "del") || !strcmp(P[t].ops[k].kind, "hdel") || !strcmp(P[t].ops[k].kind, "repl")) resident[P[t].ops[k].n] = 0;
 
 	vrt_name_val(NULL, "NULL");
 	CDS_INIT_LIST_HEAD(&lhead); CDS_INIT_HLIST_HEAD(&hhead);
